@@ -53,4 +53,5 @@ instance : Decidable GoodIncoming := by unfold GoodIncoming; infer_instance
 def GoodSession : Prop := 0 < maxCookieSize ∧ absoluteSessionTimeoutSec = 86400 ∧ poolPutOnlyBeforeNilReturn = true
 instance : Decidable GoodSession := by unfold GoodSession; infer_instance
 
+
 end Oidc.Facts
